@@ -217,6 +217,8 @@ static void flush_result_report(void) {
     }
 }
 
+extern void __gcov_dump(void) __attribute__((weak));
+
 static void die(int verdict, const char *fmt, ...) __attribute__((noreturn, format(printf, 2, 3)));
 static void die(int verdict, const char *fmt, ...) {
     char msg[1024];
@@ -232,6 +234,7 @@ static void die(int verdict, const char *fmt, ...) {
     flush_result_report();
     report("V %s %s\n", sched_verdict_name(verdict), msg);
     fflush(NULL);
+    if (__gcov_dump) __gcov_dump();          /* --coverage builds: _exit skips the atexit flush */
     _exit(xcfg.report_fd >= 0 ? 0 : 40 + verdict);
 }
 
